@@ -50,7 +50,7 @@ def scenario(draw) -> Dict[str, Any]:
     for ii in range(2):
         which = draw(st.sampled_from(['none', 'srv', 'srv+txt', 'srv+txt', 'txt', 'all-but-a', 'srv+a']))
         if which != 'none':
-            pre.append({'k': 'inst', 'inst': ii, 'which': which, 'ttl': draw(st.sampled_from([10, 120])),
+            pre.append({'k': 'inst', 'inst': ii, 'which': which, 'ttl': draw(st.sampled_from([10, 120, 75, 11])),      # odd TTLs: half a TTL is not a whole second
                         'half_delta': draw(st.sampled_from([-4000, -221, -220, -219, -21, -20, -19, 0, 1, 3000]))})
     askers: List[Dict[str, Any]] = []
     for _ in range(draw(st.integers(1, 3))):
